@@ -30,6 +30,8 @@ type Program struct {
 	effects        map[*ssa.Function]*Effects
 	srcCache       map[string][]byte
 	mapUpdated     map[*ssa.Global]bool
+	OutDir         string
+	mutators       map[*ssa.Function]map[string]bool
 }
 
 // srcText returns the source text between two positions.
